@@ -89,12 +89,12 @@ def worker(job):
     out["grammar"] = impl.model_grammar(gi)
     out["terms"] = impl.dump_terms(gi)
     out["stop"] = impl.stop_id(gi)
-    try:
-        out["table"] = impl.dump_table(p.table, gi)
-    except AssertionError:
-        # state ids that are not positions in table.states: the model identifies the two
+    if not impl.state_ids_ok(p.table):
+        # state ids that are not positions in table.states: the GLR driver keys its stack by
+        # state_id, the model by position (uniqueness of the ids is C05's subject)
         out["gerr"] = "table-not-positional"
         return out
+    out["table"] = impl.dump_table(p.table, gi)
     out["lexdis"] = bool(p.lexical_disambiguation)
     out["ws"] = [ord(ch) for ch in (p.ws or "")]
     out["layout"] = []
